@@ -4,6 +4,7 @@ import (
 	"fmt"
 	"go/token"
 	"go/types"
+	"os"
 	"strings"
 
 	"golang.org/x/tools/go/ssa"
@@ -11,14 +12,14 @@ import (
 
 func init() {
 	register("C18", &propSpec{
-		level: "other",
+		level:       "other",
 		explanation: "Ownership discipline of the server page allocator, necessary for 'a page is never lent twice nor reused before its response is written': the page that receives a packet is tagged with the order id that packet will get (getNextOrderID == the value newOrderID issues next, exactly one newOrderedRequest per received packet); a READ's data page is tagged with the request's own order id in all three sibling sites and comes from the same allocator as the connection's; pages are released only by maybeSendPackets, after the matching send, under the head's order id; allocator state only under its mutex; a lent page leaves the free list and enters the used table, a release empties the used entry; Free only in Serve's deferred function; page slicing bounded by the page length. Byte-identity of response streams is not decided.",
-		run: runC18,
+		run:         runC18,
 	})
 	register("C16", &propSpec{
-		level: "other",
+		level:       "other",
 		explanation: "Listing cursor discipline decided on SSA: the request server reads the cursor, calls ListAt with a MaxFilelist buffer at that cursor, advances the cursor by ListAt's own count exactly once on every path, emits one entry per element of finfo[:n], and answers STATUS exactly when err != nil && (err != EOF || n == 0); READDIR is dispatched to the sequential worker; the os server emits one entry per dirent; the client loop decodes all three parts of every entry on every path (so a skipped '.'/'..' cannot desynchronise the packet), appends each other entry once, ends only on STATUS or a send error and maps EOF to success.",
-		run: runC16,
+		run:         runC16,
 		assumptions: []string{"listers honour the ListerAt contract", "the directory is not modified during the listing"},
 	})
 }
@@ -28,6 +29,7 @@ func runC18(c *Ctx) {
 	pos := func(in ssa.Instruction) string { return p.Pos(in.Pos()) }
 
 	checkPageTagging(c, "R1")
+	checkNoSliceExtension(c, "R8")
 
 	// ---------- R2 READ data page tagged with the request's order id ----------
 	{
@@ -303,6 +305,11 @@ func runC18(c *Ctx) {
 func runC16(c *Ctx) {
 	p := c.P
 	pos := func(in ssa.Instruction) string { return p.Pos(in.Pos()) }
+
+	// ---------- R5 an entry's attribute block is framed by its flags word alone (shared with C06.R2) ----------
+	// a listing is a sequence of (name, longname, attrs) with no per-entry length: a block whose presence does not
+	// follow the flags desynchronises every later entry of the batch
+	checkAttrLadders(c, "R5", true)
 
 	// ---------- R1 request server cursor ----------
 	if fl := p.Func("filelist"); fl == nil {
@@ -798,4 +805,56 @@ func checkPageTagging(c *Ctx, rule string) {
 		}
 	}
 
+}
+
+// checkNoSliceExtension: a page from the allocator is 256 KiB long whatever the frame length, while the buffer
+// recvPacket makes without the allocator has cap == len.  A decoder that reslices a byte slice beyond its length
+// (b[:n] with len(b) < n <= cap(b)) therefore reads stale page contents with the allocator and fails without it.
+// Every b[lo:hi] on a byte slice in the decode cone must have hi <= len(b), proved by the linear prover.
+func checkNoSliceExtension(c *Ctx, rule string) {
+	p := c.P
+	w := newZWorld(p)
+	n := 0
+	ord := map[string]int{}
+	for _, fn := range decodeCone(p) {
+		// package sftp only: the allocator's pages carry its frames; filexfer's readPacket grows a caller-supplied
+		// scratch buffer up to its capacity on purpose and is not connected to the allocator
+		if fn.Pkg != p.Sftp {
+			continue
+		}
+		var z *zfn
+		eachInstr(fn, func(in ssa.Instruction) {
+			s, ok := in.(*ssa.Slice)
+			if !ok || s.High == nil {
+				return
+			}
+			sl, isSl := s.X.Type().Underlying().(*types.Slice)
+			if !isSl {
+				return
+			}
+			if b, ok := sl.Elem().Underlying().(*types.Basic); !ok || b.Kind() != types.Byte {
+				return
+			}
+			if z == nil {
+				z = w.get(fn)
+			}
+			k := fnName(fn) + ": reslice"
+			ord[k]++
+			key := fmt.Sprintf("%s #%d", k, ord[k])
+			n++
+			goal := leq(z.term(s.High), z.lenOf(s.X, 0), 0)
+			if ok, _ := z.prove(in, []lin{goal}); ok {
+				c.ok(rule, key, p.Pos(in.Pos()), "high bound <= len: the decoder stays inside the frame")
+				return
+			}
+			if os.Getenv("ZDEBUG") != "" && strings.Contains(key, os.Getenv("ZDEBUG")) {
+				fmt.Printf("ZDEBUG %s goal %s\n", key, goal)
+				for _, f := range z.factsAt(in) {
+					fmt.Printf("    %s\n", f)
+				}
+			}
+			c.bad(rule, key, p.Pos(in.Pos()), "a decoder reslices a byte slice beyond its length (only cap bounds it): with the allocator the bytes beyond the frame are stale contents of the page, without it the slice expression fails — the two configurations answer differently")
+		})
+	}
+	c.check(n >= 7, rule, "reslice sites in the decode cone", "?", fmt.Sprintf("%d sites", n), fmt.Sprintf("only %d reslice sites found in the decode cone", n))
 }
